@@ -428,6 +428,13 @@ def _child_is_wrapper_name(child: Node) -> bool:
         return _node_text_matches_wrapper(child)
     if child.type == "scoped_identifier":
         return _scoped_name_matches_wrapper(child)
+    if child.type == "generic_function":  # spawn_blocking::<_, T>(...)
+        return any(_child_is_wrapper_name(grandchild) for grandchild in child.children)
+    if child.type == "field_expression":  # handle.spawn_blocking(...)
+        return any(
+            grandchild.type == "field_identifier" and _node_text_matches_wrapper(grandchild)
+            for grandchild in child.children
+        )
     return False
 
 
